@@ -497,7 +497,12 @@ class DatasetProcessor:
             if not self.args.keep_tmp:
                 logger.info("To keep these intermediate files for debug purposes use --keep_tmp flag")
 
-        total_assignments, polya_found, self.all_read_groups, unaligned_reads = self.load_read_info(saves_file)
+        total_assignments, polya_found, self.all_read_groups, unaligned_reads, saved_read_group, saved_technical_replicas = \
+            self.load_read_info(saves_file)
+        if self.args.read_assignments and getattr(self.args, "implicit_read_group", False):
+            # no input files to decide the grouping from: as the run that saved the assignments decided
+            self.args.read_group = saved_read_group if saved_read_group else None
+            self.args.use_technical_replicas = saved_technical_replicas
         self.alignment_stat_counter.stats_dict[AlignmentType.unaligned] = unaligned_reads
 
         polya_fraction = polya_found / total_assignments if total_assignments > 0 else 0.0
@@ -597,6 +602,9 @@ class DatasetProcessor:
         write_list(list(all_read_groups), info_dumper, write_string)
         # unaligned reads are counted here only: kept with the saved assignments for runs that reuse them
         write_int(self.alignment_stat_counter.stats_dict[AlignmentType.unaligned], info_dumper)
+        # how the reads were grouped: a run that reuses the assignments has no input files to decide it from
+        write_string(self.args.read_group if self.args.read_group else "", info_dumper)
+        write_int(1 if self.args.use_technical_replicas else 0, info_dumper)
         info_dumper.close()
         open(lock_file, "w").close()
 
@@ -740,8 +748,10 @@ class DatasetProcessor:
         polya_assignments = read_int(info_loader)
         all_read_groups = set(read_list(info_loader, read_string))
         unaligned_reads = read_int(info_loader)
+        saved_read_group = read_string(info_loader)
+        saved_technical_replicas = read_int(info_loader) == 1
         info_loader.close()
-        return total_assignments, polya_assignments, all_read_groups, unaligned_reads
+        return total_assignments, polya_assignments, all_read_groups, unaligned_reads, saved_read_group, saved_technical_replicas
 
     def merge_assignments(self, sample, aggregator, chr_ids):
         if self.args.genedb:
